@@ -1,12 +1,16 @@
-//! mc-sbor: codec / key-mapping / identifier checks (C16 C20 C21 C28 C48).
+//! mc-sbor: serves C16 C20 C21 (one module per property).
 use mc_core::Ctx;
 
 mod c16;
+mod c20;
+mod c21;
 
 fn main() {
     let ctx = Ctx::from_args();
     match ctx.id.as_str() {
         "C16" => c16::run(ctx),
+        "C20" => c20::run(ctx),
+        "C21" => c21::run(ctx),
         other => mc_core::machinery_error(&format!("mc-sbor does not serve {other}")),
     }
 }
